@@ -55,6 +55,9 @@ def strategy(kind):
         "ser": st.sampled_from(["json", "msgpack", "cbor", "ubjson"]), "limit_exp": st.sampled_from([1, 1, 2, 3, 15] if kind == "rs" else [15]),
         "ws_limit": st.sampled_from([0, 1000, 2000]) if kind == "ws" else st.just(0),
         "procs": st.lists(st.tuples(st.sampled_from(BEHAVIOURS), st.booleans(), st.integers(0, 3)), min_size=3, max_size=3),   # behaviour, wants details, n progress
+        # how each procedure is registered: a plain callable, a bound method, or register(obj) of an object with a @wamp.register-decorated method
+        # (the object may be an empty container or otherwise falsy: it is still the method's self)
+        "styles": st.lists(st.sampled_from(["func", "func", "bound", "obj", "obj-empty", "obj-false"]), min_size=3, max_size=3),
         "steps": st.lists(step, min_size=1, max_size=10), "kind": st.just(kind)})
 
 
@@ -90,13 +93,24 @@ class World:
         if ("join",) not in self.events or self.sess is None:
             raise HarnessError("session did not join: %r" % (self.events,))
         self.reg_ids = []
+        self.bad_self = []
         self.regs = {}
         self.unregistered = set()
         for k, (beh, details, nprog) in enumerate(c["procs"]):
             fn = self.make_endpoint(k, beh, details, nprog)
             opt = RegisterOptions(details=True) if (details or beh == "progress") else None
-            fut = self.tx.d.call(lambda fn=fn, k=k, opt=opt: self.sess.register(fn, "com.myapp.proc%d" % k, opt))
-            txaio.add_callbacks(fut, lambda reg, k=k: self.regs.__setitem__(k, reg), None)
+            style = (c.get("styles") or ["func"] * 3)[k]
+            if style == "func":
+                fut = self.tx.d.call(lambda fn=fn, k=k, opt=opt: self.sess.register(fn, "com.myapp.proc%d" % k, opt))
+                txaio.add_callbacks(fut, lambda reg, k=k: self.regs.__setitem__(k, reg), None)
+            else:
+                holder = self.make_holder(k, fn, style)
+                if style == "bound":
+                    fut = self.tx.d.call(lambda holder=holder, k=k, opt=opt: self.sess.register(holder.plain, "com.myapp.proc%d" % k, opt))
+                    txaio.add_callbacks(fut, lambda reg, k=k: self.regs.__setitem__(k, reg), None)
+                else:
+                    fut = self.tx.d.call(lambda holder=holder, opt=opt: self.sess.register(holder, options=opt))
+                    txaio.add_callbacks(fut, lambda res, k=k: self.regs.__setitem__(k, res[0][1] if isinstance(res[0], tuple) else res[0]), None)
             msgs = self.tx.recv_raw()
             if len(msgs) != 1 or msgs[0][0] != 64:
                 raise HarnessError("REGISTER expected, got %r" % (msgs,))
@@ -109,6 +123,34 @@ class World:
     def big(self):
         limit = self.limit or 4096
         return "x" * (limit + 50)
+
+    def make_holder(self, k, fn, style):
+        """an application object whose method is the endpoint; the method must be invoked with exactly this object as self"""
+        from autobahn import wamp
+        world = self
+
+        class Holder:
+            def __init__(self):
+                self.items = []
+
+            def plain(self, *args, **kwargs):
+                if self is not holder:
+                    raise Violation("C10|endpoint-self-differs", "bound method invoked with self=%r" % (self,), world.c)
+                return fn(*args, **kwargs)
+
+            @wamp.register("com.myapp.proc%d" % k)
+            def decorated(*args, **kwargs):
+                if not args or args[0] is not holder:
+                    world.bad_self.append((k, style, brief(list(args[:2]))))
+                    raise TypeError("decorated() missing 1 required positional argument: 'self'")
+                return fn(*args[1:], **kwargs)
+        if style == "obj-empty":
+            Holder.__len__ = lambda self: len(self.items)
+        elif style == "obj-false":
+            Holder.__bool__ = lambda self: False
+        holder = Holder()
+        self.holders = getattr(self, "holders", []) + [holder]
+        return holder
 
     def make_endpoint(self, k, beh, details, nprog):
         from autobahn.wamp.types import CallResult
@@ -167,6 +209,8 @@ class World:
     def collect(self):
         """assign everything the session wrote to the invocations; check sizes"""
         msgs = self.tx.recv_raw()
+        if self.bad_self:
+            raise Violation("C10|endpoint-self-differs", "method of a registered object invoked without that object as self (proc, style, leading args): %r" % (self.bad_self[:2],), self.c)
         for m, size in zip([x for x in msgs if not (isinstance(x, tuple) and x[0] == "CLOSE")], self.tx.last_sizes):
             if self.limit and size > self.limit:
                 raise Violation("C10|message-exceeds-announced-limit", "%d bytes written, peer limit %d" % (size, self.limit), self.c)
